@@ -122,6 +122,7 @@ MENU4 = c07.MENU + [{"op": "smeta", "pid": "p", "fmt": "f", "d": 0}, {"op": "dme
 # calls that are REJECTED (odd but possible arguments): a rejected call, too, must leave nothing locked
 ODD = [{"op": "tag", "pid": "p", "cid": {"of": 0, "upper": True}}, {"op": "tag", "pid": "n", "cid": {"of": 0, "upper": True}},
        {"op": "tag", "pid": "n", "cid": {"raw": "0" * 64}}, {"op": "tag", "pid": "a b", "cid": {"of": 0}},
+       {"op": "tag", "pid": "n", "cid": {"raw": "sha256.v1.deadbeef"}}, {"op": "tag", "pid": "n", "cid": {"raw": "dead.beef"}},
        {"op": "store", "pid": "n", "c": 0, "cks": "wrong"}, {"op": "store", "pid": "n", "c": 1, "size": "wrong"},
        {"op": "store", "pid": "p", "c": 0, "cks": "wrong"}, {"op": "store", "pid": "n", "c": 0, "add": "sm3"},
        {"op": "store", "pid": "n", "c": 0, "cks": "wrong", "cks_algo": "sm3"},
